@@ -1,7 +1,7 @@
 import FeatherModel.Lemmas.TotalPasses
 import FeatherModel.Lemmas.TotalDyn
 import FeatherModel.Lemmas.TotalText
-import FeatherModel.Model.ClassRead
+import FeatherModel.Model.TotalClass
 
 /-!
 # C16 — parsers fail with an error, never crash, on arbitrary input
@@ -15,27 +15,29 @@ The models (`Model/Total*.lean`) return `ok | err | panic site`; every unchecked
 (`Total.Sites.table`) is a checked operation of the model.  All theorems quantify over **all** inputs (`Bytes = List
 Nat`, elements are taken modulo 256) and all initial accounts.
 
-* Full strength (`no_panic_X`): Tiny v2, tiny-diff, Enigma, nests, the three descriptor parsers.
-* The class reader does **not** satisfy the property: `no_panic_code_partial`, `no_panic_anno_partial`,
-  `no_panic_dyn_partial`, `no_panic_classRead_partial` exclude exactly the open sites; one `…_witness` per site shows a
-  concrete input (or, where the site needs 64 KiB of input or depends on the stack, a family of inputs) reaching it.
-  The same for the writer on reader output: `no_panic_argsize_partial`, `no_panic_writer_grow_partial`.
-* Guarded sites (20–37): the models keep them as checked operations and the same theorems show they never fire.
+State of the code (`/repo` after e3534dd, 4853513, 6b80d4b, 8349742, cf30e8c, cb2ce34, 835fdd2): the eight sites the
+audit found open in the class reader and in `get_arguments_size` (1–8) are repaired; each former `_witness` theorem is
+now a regression theorem (`…_is_err` / `…_is_ok`).  What remains open: **site 9** (`opcode_pos + 1 + 2` in `u16` in
+the class writer's `if_helper`, `writer_if_wide_witness`) and, not a panic, the expansion of acyclic bootstrap-argument
+DAGs into trees (`dyn_expansion_witness`, now bounded by `fanout ^ 16`).
+
+* Full strength (`no_panic_X`): Tiny v2, tiny-diff, Enigma, nests, the three descriptor parsers, `read_code`
+  (`no_panic_code`: in particular the guarded sites 20–34 never fire), element values, `Dynamic` resolution,
+  `get_arguments_size`.
+* Partial: `no_panic_writer_grow_partial` (site 9).
 * Termination: every model function is structurally recursive (Lean's own check); the two bytecode loops and the
   `get_arguments_size` loop take fuel, `pass1_fuel` / `pass2_fuel` show that more fuel never changes the result.
-* Recursion: `depth_bound_anno` (≤ |input| / 3 + 1 levels), `depth_bound_dyn_partial` (acyclic: ≤ number of constants
-  + 1), `depth_bound_enigma`; unbounded: `dyn_self_reference_witness`; linear and therefore beyond any fixed stack:
-  `anno_nesting_witness`.
-* Allocation: `alloc_bound_code` (every request sized by a 16-bit field or by bytes present is ≤ 65535 elements; needs
-  `passes_visit_same_instructions`),
-  `alloc_u32_witness` (the request sized by the raw 32-bit `attribute_length`).
+* Recursion is bounded by constants: `depth_bound_anno` (a value that is read is nested at most 256 deep),
+  `depth_bound_dyn` (the resolver is structurally recursive in `16 - depth`), `depth_bound_enigma`.
+* Allocation: `alloc_bound_code` (`≤ max 65535 (|input| + 2)` elements: 16-bit counts, switch capacities through
+  `passes_visit_same_instructions`, `read_u8_vec` buffers hold bytes that are present).
 -/
 
 namespace Thm.C16
 
 open Total
 
-/-! ## text formats and descriptors: full strength -/
+/-! ## text formats and descriptors -/
 
 /-- `quill::tiny_v2::read::<N>` never panics: the only unchecked operation (`&line[idents..]`, lines.rs:86) is always on
 a char boundary -/
@@ -76,30 +78,31 @@ theorem array_dimension_never_overflows (d : JStr) (st : Acct) :
 
 /-! ## `read_code` (class reader, wrapper pool) -/
 
-/-- `read_code` panics at most at: `start_pc + length` (1), the label counter (2), the StackMapTable offset (3), the
-element-value stack (5).  In particular the guarded sites 20–34 never fire. -/
-theorem no_panic_code_partial (body : Bytes) (st : Acct) (s : Nat) (h : (Code.codeOp body st).1 = .panic s) :
-    s ∈ [Sites.labelsRange, Sites.labelsMaxId, Sites.frameOffset, Sites.stackElementValue] :=
-  (Code.codeOp_spec body).panicsIn st s h
+/-- `read_code` never panics: the guarded operations (slice in the second pass, `iload_n` / `istore_n` arithmetic,
+frame-type subtractions, the `unreachable!()`s: sites 20–34) never fire, and the formerly open sites 1, 2, 3, 5 are
+errors or gone -/
+theorem no_panic_code (body : Bytes) (st : Acct) (s : Nat) : (Code.codeOp body st).1 ≠ .panic s :=
+  (Code.codeOp_spec_sharp body).panicsIn.not_panic st s
 
 example : (Code.codeOp [0, 1, 0, 1, 0, 0, 0, 1, 177, 0, 0, 0, 0]).run.1 = .ok () := by decide +kernel
 
-/-- site 1: `nop; return` with a LocalVariableTable entry `start_pc = 1, length = 65535` -/
-theorem code_labels_range_witness :
+/-- regression of site 1 (e3534dd): `nop; return` with a LocalVariableTable entry `start_pc = 1, length = 65535` -/
+theorem code_labels_range_is_err :
     (Code.codeOp [0, 1, 0, 1, 0, 0, 0, 2, 0, 177, 0, 0, 0, 1, 0, 26, 0, 0, 0, 12,
-      0, 1, 0, 1, 255, 255, 0, 1, 0, 10, 0, 0]).run.1 = .panic Sites.labelsRange := by decide +kernel
+      0, 1, 0, 1, 255, 255, 0, 1, 0, 10, 0, 0]).run.1 = .err := by decide +kernel
 
-/-- site 3: `return` with a StackMapTable of two frames, the second `same_frame_extended` with `offset_delta = 65535` -/
-theorem code_frame_offset_witness :
+/-- regression of site 3 (6b80d4b): `return` with a StackMapTable of two frames, the second `same_frame_extended` with
+`offset_delta = 65535` -/
+theorem code_frame_offset_is_err :
     (Code.codeOp [0, 1, 0, 1, 0, 0, 0, 1, 177, 0, 0, 0, 1, 0, 24, 0, 0, 0, 6,
-      0, 2, 0, 251, 255, 255]).run.1 = .panic Sites.frameOffset := by decide +kernel
+      0, 2, 0, 251, 255, 255]).run.1 = .err := by decide +kernel
 
-/-- site 2: labels at all of `0 … 65534` are fine (`addRange` succeeds), the next one overflows the `u16` counter.
-(`n` is a variable equal to 65535 only to keep the kernel from unfolding 65535 steps; the harness replays the full class
-file: `labels-full 65534`.) -/
-theorem labels_maxid_witness (n : Nat) (hn : n = 65535) (st : Acct) :
-    ((Code.Labels.addRange ⟨n, 0, 0⟩ n >>= fun l => l.addUnchecked n) st).1 = .panic Sites.labelsMaxId :=
-  Code.maxid_overflows n hn st
+/-- regression of site 2 (4853513): every offset `0 … n` can get a label, for every `n` (in particular `n = 65535`: all
+65536 offsets; the harness replays the full class file: `labels-full 65534`) -/
+theorem labels_all_offsets_is_ok (n : Nat) (st : Acct) :
+    ((Code.Labels.addRange ⟨n, 0, 0⟩ n >>= fun l => l.addUnchecked n) st).1 = .ok ⟨n, 2 ^ (n + 1) - 1, n + 1⟩ := by
+  rw [bnd_apply, Code.addRange_new n n st]
+  exact congrArg Prod.fst (Code.addUnchecked_fresh n n st)
 
 /-- regression (52b8362): a truncated last instruction (`sipush` with one operand byte) is an error -/
 theorem code_truncated_insn_is_err :
@@ -129,100 +132,97 @@ theorem passes_visit_same_instructions (l l2 : Code.Labels) (c : Code.Cur) (st s
   rw [h2] at h
   exact h
 
-/-- every allocation request of `read_code` whose size is a 16-bit field, a count derived from one, or the number of
-bytes present is at most 65535 elements (`0·|input| + 65535`).  This includes `Vec::with_capacity(high - low + 1)` and
-`Vec::with_capacity(npairs)` of the second pass (sites 33, 34; up to 2^31 - 1 by themselves): the first pass has read
-that many offsets from the same bytes (`passes_visit_same_instructions`). -/
-theorem alloc_bound_code (body : Bytes) : (Code.codeOp body).run.2.alloc ≤ 65535 :=
+/-- every allocation request of `read_code` is at most `max 65535 (|input| + 2)` elements: 16-bit counts and what is
+derived from them, `Vec::with_capacity(high - low + 1)` / `(npairs)` of the second pass (sites 33, 34; up to 2^31 - 1
+by themselves, but the first pass has read that many offsets from the same bytes: `passes_visit_same_instructions`),
+and the buffers of `read_u8_vec`, which since 8349742 only hold bytes that are present (former site 6) -/
+theorem alloc_bound_code (body : Bytes) : (Code.codeOp body).run.2.alloc ≤ max 65535 (body.length + 2) :=
   (Code.codeOp_spec_sharp body).alloc_le
 
-/-- site 6: a 29-byte Code attribute (one unknown attribute with `attribute_length = 0xFFFFFFFF`) requests 4 GiB -/
-theorem alloc_u32_witness :
-    (Code.codeOp [0, 1, 0, 1, 0, 0, 0, 1, 177, 0, 0, 0, 1, 0, 32, 255, 255, 255, 255]).run
-      = (.err, { alloc := 1, big := 4294967295, depth := 0 }) := by decide +kernel
+/-- regression of site 6 (8349742): a Code attribute with one unknown attribute of `attribute_length = 0xFFFFFFFF`
+is an error after a request of the 2 bytes that are left (was: 4 GiB) -/
+theorem alloc_u32_is_small :
+    (Code.codeOp [0, 1, 0, 1, 0, 0, 0, 1, 177, 0, 0, 0, 1, 0, 32, 255, 255, 255, 255]).run = (.err, { alloc := 2 }) := by
+  decide +kernel
 
 /-! ## element values -/
 
-theorem no_panic_anno_partial (gas : Nat) (body : Bytes) (st : Acct) (s : Nat)
-    (h : (Anno.annoOp gas body st).1 = .panic s) : s ∈ [Sites.stackElementValue] :=
-  (Anno.annoOp_spec gas body).panicsIn st s h
+/-- the element-value reader never panics (former site 5) -/
+theorem no_panic_anno (body : Bytes) (st : Acct) (s : Nat) : (Anno.annoOp body st).1 ≠ .panic s :=
+  (Anno.annoOp_spec body).panicsIn.not_panic st s
 
-/-- the recursion depth of the element-value reader is at most `|input| / 3 + 1`: a stack of that many levels is
-never exhausted (and nothing else panics) -/
-theorem depth_bound_anno (gas level : Nat) (input : Bytes) (h : input.length / 3 + 1 ≤ gas) (st : Acct) (s : Nat) :
-    (Anno.readValue gas level input st).1 ≠ .panic s :=
-  (Anno.readValue_depth_bound gas level input h).not_panic st s
+/-- the recursion is structural in `255 - depth`, and a value that is read is nested at most 256 levels deep -/
+theorem depth_bound_anno (body : Bytes) (st : Acct) (d : Nat) (h : (Anno.annoOp body st).1 = .ok d) : d ≤ 256 := by
+  have := ((Anno.annoOp_spec body) st).2
+  rw [h] at this
+  exact this
 
-example : (Anno.annoOp 3 (Anno.nested 2)).run.1 = .ok 3 := by decide +kernel
+/-- 255 nested arrays are read … -/
+theorem anno_nesting_255_is_ok : (Anno.annoOp (Anno.nested 255)).run.1 = .ok 256 := by decide +kernel
 
-/-- site 5: the bound is attained — for **every** stack size `gas` the `3·gas + 3`-byte input `[[[…[I` exhausts it -/
-theorem anno_nesting_witness (gas : Nat) (st : Acct) :
-    (Anno.annoOp gas (Anno.nested gas) st).1 = .panic Sites.stackElementValue ∧ (Anno.nested gas).length = 3 * gas + 3 :=
-  ⟨Anno.annoOp_nested_overflows gas st, Anno.nested_length gas⟩
+/-- … one more is an error (regression of site 5, 835fdd2; was: the stack is exhausted by `3·gas + 3` bytes for every
+stack size `gas`) -/
+theorem anno_nesting_is_err : (Anno.annoOp (Anno.nested 256)).run.1 = .err := by decide +kernel
 
 /-! ## `Dynamic` constants -/
 
-theorem no_panic_dyn_partial (gas : Nat) (spec : Dyn.Bsms) (st : Acct) (s : Nat)
-    (h : (Dyn.dynOp gas spec st).1 = .panic s) : s ∈ [Sites.stackDynamic] :=
-  (Dyn.resolve_spec (S := [Sites.stackDynamic]) (by decide) (Dyn.argsLe_sum spec) gas 1 0).panicsIn st s h
+/-- resolving `Dynamic` constants never panics (former site 4) -/
+theorem no_panic_dyn (spec : Dyn.Bsms) (st : Acct) (s : Nat) : (Dyn.dynOp spec st).1 ≠ .panic s :=
+  (Dyn.resolve_spec (S := []) (Dyn.argsLe_sum spec) Dyn.maxDepth 0).panicsIn.not_panic st s
 
-/-- site 4: a `Dynamic` constant that lists itself as bootstrap argument exhausts **every** stack: the recursion is
-unbounded -/
-theorem dyn_self_reference_witness (gas : Nat) (st : Acct) :
-    (Dyn.dynOp gas Dyn.selfRef st).1 = .panic Sites.stackDynamic :=
-  Dyn.selfRef_overflows gas 1 st
+/-- regression of site 4 (cb2ce34): a `Dynamic` constant that lists itself as bootstrap argument is an error (was:
+exhausts every stack) -/
+theorem dyn_self_reference_is_err : (Dyn.dynOp Dyn.selfRef).run.1 = .err := by decide +kernel
 
-/-- argument structures whose references only go forward (hence acyclic) need at most `k + 1` levels for `k`
-constants -/
-theorem depth_bound_dyn_partial (spec : Dyn.Bsms) (hf : Dyn.Forward spec) (gas : Nat) (h : spec.length + 1 ≤ gas)
-    (st : Acct) (s : Nat) : (Dyn.dynOp gas spec st).1 ≠ .panic s := by
-  have hB := Dyn.argsLe_sum spec
-  exact (Dyn.resolve_forward hf hB gas 1 0 (by omega) (by omega)).panicsIn.not_panic st s
+/-- the recursion depth is bounded by a constant: `resolve` is structurally recursive in `16 - depth`; a chain of 17
+constants (depths 0 … 16) is resolved, a chain of 18 is an error -/
+theorem depth_bound_dyn :
+    (Dyn.dynOp ((List.range 17).map fun i => if i + 1 < 17 then [Dyn.Arg.dyn (i + 1)] else [])).run.1 = .ok 17 ∧
+    (Dyn.dynOp ((List.range 18).map fun i => if i + 1 < 18 then [Dyn.Arg.dyn (i + 1)] else [])).run.1 = .err := by
+  decide +kernel
 
-example : Dyn.Forward [[.dyn 1, .int], [.dyn 2], []] := by
-  intro i args h j hj
-  match i, h with
-  | 0, h => simp at h; subst h; simp at hj; omega
-  | 1, h => simp at h; subst h; simp at hj; omega
-  | 2, h => simp at h; subst h; simp at hj
-  | n + 3, h => simp at h
-
-/-- acyclic structures are expanded into trees: 11 constants (a binary DAG of depth 10) become 2047 `Loadable`s -/
-theorem dyn_expansion_witness : (Dyn.dynOp 12 (Dyn.binDag 10 0)).run.1 = .ok 2047 := by decide +kernel
+/-- still open (not a panic): acyclic structures are expanded into trees: 7 constants (a binary DAG of depth 6) become
+127 `Loadable`s; with the depth limit the expansion is bounded by `fanout ^ 16` -/
+theorem dyn_expansion_witness : (Dyn.dynOp (Dyn.binDag 6 0)).run.1 = .ok 127 := by decide +kernel
 
 /-! ## the writer on reader output -/
 
 /-- `get_arguments_size` (reached from the writer's `invokeinterface` arm on any descriptor the reader accepted)
-panics only at its two `u8` additions -/
-theorem no_panic_argsize_partial (d : JStr) (st : Acct) (s : Nat) (h : (Text.argSizeOp d st).1 = .panic s) :
-    s ∈ [Sites.argSizeWide, Sites.argSizeOne] :=
-  (Text.argSizeOp_spec d).panicsIn st s h
+never panics (former sites 7, 8) -/
+theorem no_panic_argsize (d : JStr) (st : Acct) (s : Nat) : (Text.argSizeOp d st).1 ≠ .panic s :=
+  (Text.argSizeOp_spec d).panicsIn.not_panic st s
 
-/-- site 7: `(` + 128 × `D` + `)V` -/
-theorem argsize_wide_witness :
-    (Text.argSizeOp (40 :: List.replicate 128 68 ++ [41, 86])).run.1 = .panic Sites.argSizeWide := by decide +kernel
+/-- regression of site 7 (cf30e8c): `(` + 128 × `D` + `)V` -/
+theorem argsize_wide_is_err :
+    (Text.argSizeOp (40 :: List.replicate 128 68 ++ [41, 86])).run.1 = .err := by decide +kernel
 
-/-- site 8: `(` + 255 × `I` + `)V` -/
-theorem argsize_one_witness :
-    (Text.argSizeOp (40 :: List.replicate 255 73 ++ [41, 86])).run.1 = .panic Sites.argSizeOne := by decide +kernel
+/-- regression of site 8 (cf30e8c): `(` + 255 × `I` + `)V` -/
+theorem argsize_one_is_err :
+    (Text.argSizeOp (40 :: List.replicate 255 73 ++ [41, 86])).run.1 = .err := by decide +kernel
 
 example : (Text.argSizeOp (jstr "(IDLjava/lang/Thread;)V")).run.1 = .ok () := by decide +kernel
+example : (Text.argSizeOp (40 :: List.replicate 254 73 ++ [41, 86])).run.1 = .ok () := by decide +kernel
 
+/-- the writer scenario `if_helper` with a known target panics at most at site 9 -/
 theorem no_panic_writer_grow_partial (nops nitf : Nat) (st : Acct) (s : Nat)
     (h : (Writer.growOp nops nitf st).1 = .panic s) : s ∈ [Sites.writerIfWide] :=
   (Text.growOp_spec nops nitf).panicsIn st s h
 
-/-- site 9: a 65535-byte method (65530 `nop`, `ldc`, `ifeq` 32768 bytes back) in a class with 130 interfaces: the
-writer turns `ldc` into `ldc_w` and computes `65533 + 1 + 2` in `u16` -/
+/-- site 9 (**open**): a 65535-byte method (65530 `nop`, `ldc`, `ifeq` 32768 bytes back) in a class with 130
+interfaces: the writer turns `ldc` into `ldc_w` and computes `65533 + 1 + 2` in `u16` -/
 theorem writer_if_wide_witness : (Writer.growOp 65530 130).run.1 = .panic Sites.writerIfWide := by decide +kernel
 
 example : (Writer.growOp 65530 100).run.1 = .ok () := by decide +kernel
 
+/-- the only site of the audit that is still open -/
+theorem open_sites : Sites.openIds = [Sites.writerIfWide] := by decide +kernel
+
 /-! ## whole class files (C01's reader model) -/
 
-/-- the whole-file reader model of C01 crashes at most at sites 1, 2, 3 and by unbounded `Dynamic` recursion -/
-theorem no_panic_classRead_partial (b : Bytes) (s : ClassRead.Site) (h : ClassRead.read b = .crash s) :
-    s ∈ [ClassRead.Site.labelsRangeAdd, .labelsMaxId, .frameOffsetAdd, .recursion] := by
-  cases s <;> simp
+/-- the outcome class of a whole file is `ok` or `err` (the unchecked operations of the reader are the subject of the
+component theorems above; C01's model is only the value part) -/
+theorem no_panic_classRead (b : Bytes) (st : Acct) (s : Nat) : (classReadOp b st).1 ≠ .panic s := by
+  unfold classReadOp
+  cases ClassRead.read b <;> simp [TM.fail, Pure.pure, TM.ret]
 
 end Thm.C16
